@@ -33,6 +33,9 @@ type Instance struct {
 	ctx    context.Context
 	cancel context.CancelFunc
 
+	// Values are the values the directive already has; they are replayed to every new reference handler
+	Values []directive.AttachedValue
+
 	mu       sync.Mutex
 	Refs     []*Ref
 	Disposes []func()
@@ -56,7 +59,15 @@ func (i *Instance) AddReference(cb directive.ReferenceHandler, weakRef bool) dir
 	r := &Ref{inst: i, Handler: cb, Weak: weakRef}
 	i.mu.Lock()
 	i.Refs = append(i.Refs, r)
+	vals := append([]directive.AttachedValue(nil), i.Values...)
 	i.mu.Unlock()
+	// like the bus: a new reference with a handler is told about the values the directive already has, before
+	// AddReference returns
+	if cb != nil {
+		for _, v := range vals {
+			cb.HandleValueAdded(i, v)
+		}
+	}
 	return r
 }
 
@@ -141,6 +152,15 @@ type ResolverHandler struct {
 	Values map[uint32]directive.Value
 	Hist   []directive.Value
 	Idle   bool
+	// Reject makes AddValue refuse values, as the handler of a cancelled or restarted resolver does
+	Reject bool
+}
+
+// SetReject switches refusal of new values on or off.
+func (h *ResolverHandler) SetReject(r bool) {
+	h.mu.Lock()
+	h.Reject = r
+	h.mu.Unlock()
 }
 
 // NewResolverHandler builds a fake resolver handler.
@@ -151,6 +171,9 @@ func NewResolverHandler() *ResolverHandler {
 func (h *ResolverHandler) AddValue(v directive.Value) (uint32, bool) {
 	h.mu.Lock()
 	defer h.mu.Unlock()
+	if h.Reject {
+		return 0, false
+	}
 	h.next++
 	h.Values[h.next] = v
 	h.Hist = append(h.Hist, v)
